@@ -175,6 +175,7 @@ def in_known_class(cmd, args):
 def gen_script(rng):
     lines = prelude()
     outs = []
+    stored_ref = False
     n = rng.randint(1, 14)
     cmds = sorted(SIGS)
     for k in range(n):
@@ -198,6 +199,11 @@ def gen_script(rng):
             continue
         if in_known_class(cmd, args):
             continue
+        if cmd in ("array", "array_push", "array_set", "map_put", "set_put", "set_new") and any(a.startswith("${") for a in args[1:] if cmd != "array") \
+                or cmd in ("array", "set_new") and any(a.startswith("${") for a in args):
+            stored_ref = True     # a handle may have been stored inside a collection
+        if cmd == "json_encode" and stored_ref:
+            continue              # F23 class: json_encode --collection over a store that may contain a cycle
         # values that reference a variable holding a huge number are not generated: outs hold command results only
         line = cmd + "".join(" " + quote(a) for a in args)
         if rng.random() < 0.7:
@@ -288,6 +294,7 @@ def witnesses(ck):
         "F12": "F\t" + enc_str(cyc),
         "F13": "S\t" + enc_str("r = range 0 100000000000000\n"),
         "F17": "S\t" + enc_str("alias xx xx\nxx\n"),
+        "F23": "S\t" + enc_str("a = array x\narray_push ${a} ${a}\nr = json_encode --collection ${a}\n"),
     }
     res = {}
     for k, line in cases.items():
@@ -380,5 +387,5 @@ def run(ck):
     ck.assumptions += [
         "exploration is testing: it supports the claim for the unmodelled ~200 commands and never stands in for a theorem",
         "commands that block or leave the process, need the network, or write/delete files are excluded from generation (listed in commands_excluded)",
-        "the classes of the open findings F8 (join_path argument outside C09's safe class: containing $ % CR LF # \" backslash or surrounding white space), F12 (include cycle), F13 (range/random_text with a span above 10^5), F17 (alias definitions that can form a cycle) are excluded from generation",
+        "the classes of the open findings F8 (join_path argument outside C09's safe class: containing $ % CR LF # \" backslash or surrounding white space), F12 (include cycle), F13 (range/random_text with a span above 10^5), F17 (alias definitions that can form a cycle), F23 (json_encode after a handle was stored inside a collection) are excluded from generation",
     ]
